@@ -587,6 +587,116 @@ def flag_case(draw, op):
     return c
 
 
+# ---- contexts that overlap without being nested (a generator suspended inside one, explicit enter/exit) -------
+@st.composite
+def overlap_cases(draw):
+    ev = []
+    if draw(st.integers(0, 2)) > 0:
+        # planned: a few entries of both kinds, then exits in a drawn order of kinds (so that the entry order is
+        # not the reverse of the exit order in most cases)
+        kinds = [draw(st.sampled_from(["no_grad", "retain"])) for _ in range(draw(st.integers(2, 4)))]
+        if len(set(kinds)) == 1:
+            kinds[-1] = "retain" if kinds[0] == "no_grad" else "no_grad"
+        for kd in kinds:
+            ev.append({"k": draw(st.sampled_from(["enter_", "gen_"])) + kd, "exc": False, "i": 0})
+        for kd in draw(st.permutations(kinds)):
+            ev.append({"k": "exit_" + kd, "exc": draw(st.integers(0, 5)) == 0, "i": 0})
+        return {"events": ev}
+    for _ in range(draw(st.integers(2, 10))):
+        ev.append({"k": draw(st.sampled_from(["enter_no_grad", "enter_retain", "exit_no_grad", "exit_retain", "exit_no_grad", "exit_retain",
+                                              "gen_no_grad", "gen_retain", "resume", "probe"])),
+                   "exc": draw(st.integers(0, 5)) == 0, "i": draw(st.integers(0, 3))})
+    return {"events": ev}
+
+
+def check_overlap(c, rec):
+    """no_grad and retain_grads govern two independent flags.  Contexts of the SAME kind are left innermost-first;
+    contexts of different kinds may be left in any order (generators suspended inside a with-block, explicit
+    __enter__/__exit__): each exit restores the mode that was in force for ITS flag when it was entered."""
+    it = Interp(rec)
+    open_ = {"no_grad": [], "retain": []}        # stacks of (kind, how, object)
+    gens = []
+    crossed = False
+    order = []                                    # global entry order, to detect non-nested exits
+
+    def set_model():
+        it.grad_on = not open_["no_grad"]
+        it.retain_all = bool(open_["retain"])
+
+    def make_gen(kind):
+        def g():
+            with (sg.no_grad() if kind == "no_grad" else sg.retain_grads()):
+                yield 1
+            yield 2
+        return g()
+
+    try:
+        for e in c["events"]:
+            k = e["k"]
+            if k in ("enter_no_grad", "enter_retain"):
+                kind = "no_grad" if k == "enter_no_grad" else "retain"
+                cm = sg.no_grad() if kind == "no_grad" else sg.retain_grads()
+                cm.__enter__()
+                open_[kind].append(("cm", cm))
+                order.append(kind)
+                it.trace.append(f"{kind}.__enter__()")
+            elif k in ("gen_no_grad", "gen_retain"):
+                kind = "no_grad" if k == "gen_no_grad" else "retain"
+                g = make_gen(kind)
+                next(g)                                 # now suspended inside its with-block
+                open_[kind].append(("gen", g))
+                order.append(kind)
+                it.trace.append(f"generator suspended inside {kind}")
+            elif k in ("exit_no_grad", "exit_retain", "resume"):
+                kind = "no_grad" if k == "exit_no_grad" else "retain"
+                if k == "resume":
+                    kind = "no_grad" if e["i"] % 2 else "retain"
+                if not open_[kind]:
+                    continue
+                how, obj = open_[kind].pop()            # innermost of ITS kind
+                if order and order[-1] != kind:
+                    crossed = True                      # an outer context of the other kind is left first
+                # remove the last occurrence of this kind from the global order
+                for j in range(len(order) - 1, -1, -1):
+                    if order[j] == kind:
+                        del order[j]
+                        break
+                if how == "cm":
+                    if e["exc"]:
+                        obj.__exit__(Boom, Boom("x"), None)
+                    else:
+                        obj.__exit__(None, None, None)
+                    it.trace.append(f"{kind}.__exit__({'exception' if e['exc'] else ''})")
+                else:
+                    if e["exc"]:
+                        try:
+                            obj.throw(Boom("x"))
+                        except Boom:
+                            pass
+                        it.trace.append(f"generator inside {kind} left by exception")
+                    else:
+                        next(obj)
+                        it.trace.append(f"generator inside {kind} resumed past its with-block")
+            set_model()
+            it.probe(f"after {it.trace[-1] if it.trace else 'start'}")
+    finally:
+        # leave everything that is still open, innermost of each kind first, so that no mode leaks into the next case
+        for kind in ("no_grad", "retain"):
+            while open_[kind]:
+                how, obj = open_[kind].pop()
+                try:
+                    obj.__exit__(None, None, None) if how == "cm" else obj.close()
+                except Exception:  # noqa: BLE001
+                    pass
+    set_model()
+    it.probe("after every context was left")
+    rec.nontrivial(crossed)
+    if crossed:
+        rec.tag("left_in_entry_order_across_kinds")
+    if any(e["k"].startswith("gen_") for e in c["events"]):
+        rec.tag("generator_suspended_in_context")
+
+
 def subchecks():
     from .. import nnops, ops as _ops
     subs = [SubCheck("programs", check_program, programs, quick=300, thorough=4000, shards_quick=8, shards_thorough=16)]
@@ -596,6 +706,7 @@ def subchecks():
         subs.append(SubCheck("flag_nn_" + op.name, make_flag_check(op), (lambda op=op: flag_case(op)), quick=100, thorough=1000))
     subs.append(SubCheck("module_freeze_unfreeze", check_freeze, freeze_cases, quick=200, thorough=2000))
     subs.append(SubCheck("flag_two_tensor_losses", check_loss_flags, loss_flag_cases, quick=200, thorough=2000))
+    subs.append(SubCheck("overlapping_contexts", check_overlap, overlap_cases, quick=500, thorough=6000, shards_thorough=2))
     for op in _ops.OPS:
         subs.append(SubCheck("release_t_" + op.name, make_release_check(op), (lambda op=op: release_case(op)), quick=60, thorough=800))
     for op in nnops.OPS:
